@@ -7,7 +7,12 @@ RULE = ("twin histories: the same sequence of (M,2) range updates is applied to 
         "with explicit-pixel updates; after every step both maps are exported (layout check + dense view) and "
         "must equal the Lean model and each other; ranges are drawn with block-edge starts/ends, empty rows, "
         "rows ending at 12*nside^2 in any row position, 1-4 coverage pixels spanned, shuffled row order, "
-        "overlapping rows for accumulating operations; non-trivial = a range row spanning >= 2 coverage pixels "
+        "overlapping rows for accumulating operations; geometric shapes (Circle, Ellipse, Polygon, Box at random "
+        "positions incl. poles and lon 0, tiny to large, scalar values and bit lists incl. bits 8/16/24, with and "
+        "without nside_render) are applied through |=, &=, +=, |, &, +, realize_geom, get_map and get_map_like and "
+        "compared with the model's update of exactly the pixels hpgeom renders (the harness also checks get_pixels = "
+        "expand(get_pixel_ranges) and that a shape with nside_render covers exactly the children of its rendered "
+        "pixels); non-trivial = a range row spanning >= 2 coverage pixels "
         "or ending on a block edge / the last pixel")
 ASSUMPTIONS = ["hpgeom.pixel_ranges_to_pixels = concatenation of half-open ranges (Model/Ranges.lean `expand`)"]
 
@@ -22,7 +27,17 @@ def histories(rng, tier):
         focus = rng.sample(range(c.ncov), min(c.ncov, rng.randint(2, 5)))
         h = [c.line(), c2.line()]
         for _ in range(rng.randint(2, 8)):
-            if rng.random() < 0.3:
+            r0 = rng.random()
+            if r0 < 0.25 and c.kind != 'rec':
+                # a geometric shape through an operator / realize_geom on a; the explicit-pixel update
+                # of the same rendered pixels (the model's meaning of the shape) is what both are compared to
+                ln = gen.geom_line(rng, c, mode=rng.choice(['ior', 'ior', 'or', 'realize']), r='a')
+                h += [ln, ln.replace(' a ', ' b ', 1).replace(' r=a', ' r=b')]
+            elif r0 < 0.3 and c.kind != 'rec':
+                ln = gen.geom_line(rng, c, mode=rng.choice(['getmap', 'getmaplike']), r='gm')
+                h += [ln, 'info gm', 'state gm', 'vals gm']
+                continue
+            elif r0 < 0.5:
                 ln = gen.upd_line(rng, c, focus=focus)
                 h += [ln, ln.replace(' a ', ' b ', 1)]
             else:
